@@ -1076,10 +1076,18 @@ struct Scenario {
       holder[i]->set_logger(on ? &hlog[i] : nullptr);
       what = "CodeHolder::set_logger"; g_by_api["route.event.holder-logger"]++;
     }
-    else {
+    else if (K::a64 || k < 94) {
       bool on = r.below(2) != 0;
       e.set_logger(on ? &olog : nullptr);
       what = "BaseEmitter::set_logger"; g_by_api["route.event.own-logger"]++;
+    }
+    else {
+      // strict validation switched off and on again (x86): one more event that makes the emitter recompute its forced options
+      DiagnosticOptions d = K::kind == K_ASM ? DiagnosticOptions::kValidateAssembler : DiagnosticOptions::kValidateIntermediate;
+      e.clear_diagnostic_options(d);
+      if (r.below(2)) e.set_logger(nullptr);
+      e.add_diagnostic_options(d);
+      what = "clear_diagnostic_options + add_diagnostic_options"; g_by_api["route.event.diagnostic-options-toggled"]++;
     }
     hlog[0].clear(); hlog[1].clear(); olog.clear();
     check_getters(what);
@@ -1105,6 +1113,21 @@ struct Scenario {
           entry = "detached.embed_data_array"; cr = guarded([&] { return e.embed_data_array(TypeId::kUInt8, bytes, 8, 1); }); return true;
       }
     }
+    if (v == 6) {
+      // x86-32 Assembler: a request for a REX prefix (rex() or a REX.B/X/R/W option bit) on a valid instruction must be refused by the
+      // Assembler itself - whatever settings events came before
+      if constexpr (K::kind == K_ASM && !K::a64) {
+        if (is64) return false;
+        static const uint32_t req[] = { 0x40000000u, 0x01000000u, 0x02000000u, 0x04000000u, 0x08000000u };
+        uint32_t o = req[r.below(5)];
+        bool mem = r.below(2) != 0;
+        entry = "inst.rex-in-32-bit-mode";
+        cr = guarded([&] { e.set_inst_options(InstOptions(o)); return mem ? e.emit(x86::Inst::kIdMov, x86::eax, x86::dword_ptr(x86::ebx, 8)) : e.emit(x86::Inst::kIdMov, x86::eax, x86::ebx); });
+        e.reset_inst_options();
+        return true;
+      }
+      else return false;
+    }
     switch (v % 6) {
       case 0:
         if constexpr (K::a64) {
@@ -1129,7 +1152,9 @@ struct Scenario {
     size_t off0 = 0, nodes0 = 0;
     if constexpr (K::kind == K_ASM) { if (attached >= 0) off0 = e.offset(); }
     else { for (BaseNode* n = e.first_node(); n; n = n->next()) nodes0++; }
-    if (!failing_call(int(r.below(6)), entry, cr)) return;
+    int variant = int(r.below(7));
+    if (attached < 0 && variant == 6) variant = int(r.below(6));
+    if (!failing_call(variant, entry, cr)) return;
     g_probes++; lbl::g_calls++;
     g_by_api["route.probe." + state()]++; g_by_api[std::string("route.on.") + K::name()]++; g_by_api["route.entry." + entry]++;
     g_distinct.insert("route:" + std::string(K::name()) + ":" + state() + ":" + entry + ":err" + std::to_string(unsigned(cr.err)));
